@@ -243,16 +243,6 @@ func (node *mastNode) store(
 			return hash, nil
 		}
 	}
-	storeQ <- func() error {
-		err = persist.Store(ctx, hash, encoded)
-		if err != nil {
-			return fmt.Errorf("persist store: %w", err)
-		}
-		if cache != nil {
-			cache.Add(cacheKey, node)
-		}
-		return nil
-	}
 	if node.dirty && node.source != nil && *node.source != hash {
 		fmt.Printf("expected node %s %v\n", *node.source, node.expected)
 		fmt.Printf("found    node %s %v\n", hash, node)
@@ -265,5 +255,17 @@ func (node *mastNode) store(
 	}
 	node.source = &hash
 	node.shared = true
+	// the node is final before it is published: the store worker hands it
+	// to the (possibly shared) cache from another goroutine
+	storeQ <- func() error {
+		err := persist.Store(ctx, hash, encoded)
+		if err != nil {
+			return fmt.Errorf("persist store: %w", err)
+		}
+		if cache != nil {
+			cache.Add(cacheKey, node)
+		}
+		return nil
+	}
 	return hash, nil
 }
